@@ -1,13 +1,16 @@
 SPECIFICATION MCSpec
 CONSTANTS
+  FifoLock = TRUE
   Types = {"T1"}
   Procs = {1}
   Fns = {"f0"}
   Vals = {"a", "b"}
   Ctxs = {"c1"}
+  PubCtxs = {"bg", "c1"}
   Profiles <- c04Profiles
   Cfgs <- noCfg
   TopKinds = {"sub", "unsub", "pub", "cancel", "count", "wait"}
+  Roles <- allRoles
   MaxReg = 3
   MaxPub = 6
   MaxTop = 10
